@@ -86,11 +86,12 @@ def lemma_obligation(name):
     return prem, concl
 
 
-@lemma("L_cusum", ["real"] * 6)
-def _l_cusum(a, b, x, y, A, B):
-    """Squared CUSUM == L2 change score in prefix-sum form (pure real algebra)."""
+@lemma("L_cusum", ["real"] * 8)
+def _l_cusum(a, b, na, nb, x, y, A, B):
+    """Squared CUSUM == L2 change score in prefix-sum form (pure real algebra). na, nb are the products n*a, n*b as the
+    code computes them (so that the premises match the program terms syntactically)."""
     n = a + b
-    prem = [a > 0, b > 0, x >= 0, y >= 0, x * x == b / (n * a), y * y == a / (n * b)]
+    prem = [a > 0, b > 0, na == n * a, nb == n * b, x >= 0, y >= 0, x * x == b / na, y * y == a / nb]
     concl = (x * A - y * B) * (x * A - y * B) == A * A / a + B * B / b - (A + B) * (A + B) / n
     return prem, concl
 
